@@ -471,3 +471,19 @@ def _payload_reads(ctx, prog, eff, reg, f):
         else:
             out.append((f.src(first), f.loc(first), False, "on a path the explorer could not reach", False))
     return out
+
+
+_run_base = run
+
+
+def run(ctx):
+    _run_base(ctx)
+    prog = ctx.prog
+    ctx.rule("R19.5", "no crash on unusual but loadable traces: tables indexed by a byte of the trace have 256 entries "
+             "or a bound check; the sparse stream table system.lpt is indexed only by the function that builds it "
+             "(system_get_lpt answers NULL for other streams); the clock-gate test never reads an event of a stream "
+             "that has none")
+    from rules import round3
+    round3.check_byte_indexed_tables(ctx, "R19.5")
+    round3.check_lpt_table_access(ctx, "R19.5")
+    round3.check_gate_skips_exhausted(ctx, "R19.5")
